@@ -98,6 +98,7 @@ let list_of = function L l -> l | A _ -> raise (Bad "list expected")
 let rec bdd_raw = function
   | A "F" -> F | A "T" -> T
   | L [A "N"; t; v; f] -> Nd (bdd_raw t, nat_atom v, bdd_raw f)
+  | L [A "R"; t; v; f] -> Nd (bdd_raw t, nat_atom v, bdd_raw f)
   | _ -> raise (Bad "bdd")
 
 let rec show_bdd buf = function
